@@ -96,8 +96,15 @@ func execWait2(b *kvx.Backend, o kvx.Op) []kvx.Obs {
 				ctx, cancel := context.WithTimeout(context.Background(), time.Duration(ms)*time.Millisecond)
 				defer cancel()
 				x.Class = kvx.Class(b.S.WaitForVersionChange(ctx, o.Key, ver))
+				x.T1 = now()
+				if dl, ok := ctx.Deadline(); ok && x.Class == "OCtx" { // judged at the instant the context ended
+					x.T0 = int64(dl.Sub(b.T0) + b.FF)
+					x.T1 = x.T0
+				}
 			}()
-			x.T1 = now()
+			if x.T1 < x.T0 {
+				x.T1 = now()
+			}
 			x.CoqOut = x.Class
 			done <- x
 		}()
